@@ -178,7 +178,8 @@ func c13nRunInBubble(t *testing.T, c c13nCase, res *vfResult) {
 	connected := false
 	var psubs [2]*Subscription
 	seq := uint64(0)
-	var lastSlow time.Duration = -time.Hour
+	var lastSlow, lastPub time.Duration = -time.Hour, -time.Hour
+	midFlight := false
 	crossed, afterOut, usedBackoff := false, false, false
 	send := func(r *pb.RPC) {
 		if P != nil && P.hasOut(nN) {
@@ -200,6 +201,9 @@ func c13nRunInBubble(t *testing.T, c c13nCase, res *vfResult) {
 			}
 		case "disconnect":
 			if connected {
+				if s.now()-lastSlow < 3500*time.Millisecond+time.Duration(4*c.Lat)*time.Millisecond || s.now()-lastPub < 200*time.Millisecond+time.Duration(4*c.Lat)*time.Millisecond {
+					midFlight = true // a verdict will arrive after this disconnect; only a later complete connection cycle removes what it creates
+				}
 				s.disconnect(nP, nN)
 				if P != nil {
 					P.closeOut(nN, true)
@@ -253,6 +257,7 @@ func c13nRunInBubble(t *testing.T, c c13nCase, res *vfResult) {
 		case "pub", "pubslow":
 			seq++
 			data := fmt.Sprintf("p-%d", seq)
+			lastPub = s.now()
 			if op.Kind == "pubslow" {
 				data = "slow-" + data
 				lastSlow = s.now()
@@ -277,7 +282,9 @@ func c13nRunInBubble(t *testing.T, c c13nCase, res *vfResult) {
 		}
 	}
 	// the peer leaves for good
-	inFlight := s.now()-lastSlow < 3500*time.Millisecond+time.Duration(4*c.Lat)*time.Millisecond
+	inFlight := s.now()-lastSlow < 3500*time.Millisecond+time.Duration(4*c.Lat)*time.Millisecond ||
+		s.now()-lastPub < 200*time.Millisecond+time.Duration(4*c.Lat)*time.Millisecond || // still on the wire or in the pipeline when the peer leaves
+		midFlight
 	if connected {
 		s.disconnect(nP, nN)
 		if P != nil {
